@@ -110,6 +110,8 @@ def gen_universe(rng, uid, profile):
         for _ in range(rng.choice(profile.get("n_con", [0, 0, 0, 1]))):
             s["deps"]["con"].append(rng.randrange(nvs))
     def root_req():
+        if profile.get("root_first_pkg"):
+            return {"s": rng.choice(vs_by_pkg[0])}
         return {"s": rng.randrange(nvs)} if profile.get("root_single") else rand_req()
 
     problem = {"req": [root_req() for _ in range(rng.choice(profile.get("n_root_req", [1, 1, 2, 3])))],
@@ -117,7 +119,8 @@ def gen_universe(rng, uid, profile):
                "soft": []}
     if profile.get("soft"):
         k = rng.choice(profile.get("n_soft", [1, 1, 2, 3]))
-        problem["soft"] = [rng.randrange(len(solvables)) for _ in range(k)]
+        pool = [x["id"] for x in solvables if x["name"] != 0] if profile.get("root_first_pkg") else []
+        problem["soft"] = [rng.choice(pool) if pool else rng.randrange(len(solvables)) for _ in range(k)]
     u = {"id": uid, "packages": pkgs, "solvables": solvables, "version_sets": vsets, "unions": unions,
          "problem": problem}
     if profile.get("async"):
@@ -163,6 +166,10 @@ FAMILIES = {
     # C16: what the snapshot format represents (no favored / locked); root requirements are single version sets because
     # from_provider() takes names, version sets and solvables as capture roots - unions are captured from dependencies
     "snapshot": dict(BASE, p_favored=0, p_locked=0, root_single=True, snapshot=True, p_union=0.3, max_unions=3),
+    # soft requirements on packages the root problem never visits, dense requirements that lead back to the soft
+    # solvable's own package
+    "softloop": dict(max_pkg=3, min_pkg=2, max_cand=3, n_req=[1, 1, 2], n_con=[0, 0, 1], n_root_req=[1], n_root_con=[0],
+                     soft=True, n_soft=[1, 1, 2], root_first_pkg=True, p_unknown=0.05, p_union=0.1, p_vs_empty=0.02),
     # C10: the same problems through an asynchronous provider under four completion orders
     "async": dict(BASE, **{"async": True}),
     "asynchard": dict(max_pkg=8, min_pkg=5, max_cand=3, p_favored=0.1, p_union=0.15, p_vs_empty=0.02, max_vs=4, p_hint_all=0.2,
